@@ -2,6 +2,7 @@ import GdcVerif.Driver.Util
 import GdcVerif.Model.Dct
 import GdcVerif.Model.JpegAddr
 import GdcVerif.Model.J2kQuant
+import GdcVerif.Model.JpegAc
 /-! Driver ops of the lossy codecs work package (C11, C15, C12). -/
 namespace Drv.Dct
 open Drv
@@ -81,6 +82,33 @@ def step? : List String → Option String
   | ["j2k-encstep", m, e, nb] => some <| match m.toNat?, e.toInt?, nb.toInt? with
     | some m, some e, some nb => s!"ok {J2kQuant.encodeStepDyadic m e nb}"
     | _, _, _ => "bad-op"
+  | ["jpg-ycc2rgb", y, cb, cr] => some <| match ints? [y, cb, cr] with
+    | some [y, cb, cr] => let r := Gen.JpegBaseline.ycbcrToRGB y cb cr; s!"ok {r.1} {r.2.1} {r.2.2}"
+    | _ => "bad-op"
+  | ["jpg-rgb2ycc", r, g, b] => some <| match ints? [r, g, b] with
+    | some [r, g, b] => let v := Gen.JpegBaseline.rgbToYCbCr.entry default 0 0 0 8 r g b 0 0 0; s!"ok {v.1} {v.2.1} {v.2.2}"
+    | _ => "bad-op"
+  | ["jpg-acblock", dc, acs] => some <| match dc.toInt?, parseInts acs with
+    | some dc, some ac =>
+      match JpegAc.decodeAC (JpegAc.encAC ac 0) with
+      | none => "err"
+      | some ac' =>
+        -- natural-order coefficients: coef[ZigZag[k]] = zz[k]
+        let zz := dc :: ac'
+        let coef := (List.range 64).foldl (fun (a : Option (Array Int)) (k : Nat) => do
+          let a ← a
+          let z ← Dct.getI Gen.JpegStd.ZigZag k
+          let v ← zz[k]?
+          Dct.setI a z v) (some (Array.replicate 64 0))
+        match coef with
+        | some c => match Dct.idct c (Array.replicate 64 1) with
+          | some o => okBytes o.toList
+          | none => "panic"
+        | none => "panic"
+    | _, _ => "bad-op"
+  | ["jpg-acsyms", acs] => some <| match parseInts acs with
+    | some ac => "ok " ++ " ".intercalate ((JpegAc.encAC ac 0).map (fun s => s!"{s.1}:{s.2}"))
+    | none => "bad-op"
   | ["jpg-detect", hx] => some s!"ok {Dct.detectBitDepth (hexToBytes hx)}"
   | ["jpg-rstfilter-tie"] => some "ok true"
   | ["jpg-repack-len", w, h] => some <| match nats? [w, h] with
